@@ -32,6 +32,12 @@ ASSUMPTIONS = [
     "p.pinNDens (float32, pins x nuclides) and p.detailedNDens (float64 vector) are filled with synthetic values the "
     "way a pin-level / high-fidelity depletion step leaves them, each independently present or absent; only their "
     "ratios between states are judged, pinNDens with the float32 tolerance rel 1e-6 (in-place float32 rescaling per step)",
+    "derived lengths (getBoundingCircleOuterDiameter, getCircleInnerDiameter, getPerimeter, getPitchData) are expected to be "
+    "cold value * f like the dimensions they are built from, with an absolute floor of 1e-12 * largest dimension because some "
+    "are differences of nearly equal dimensions; UnshapedComponent's bounding circle documents that it ignores Tc and is not previewed",
+    "one composition dict assigned directly to several components' p.numberDensities (the route updateNumberDensities' "
+    "docstring names) is an input real callers make; area modifications follow doc/user/inputs.rst ('<name>.add' / '<name>.sub', "
+    "referenced component defined first) and are previewed at a temperature inside both materials' windows",
     "absolute number densities at construction are not judged (they carry the documented axial factor); only "
     "ratios between states of one component, and equality between a path and a single jump",
     "components with a linked dimension are not expected to conserve their own mass (their area follows the "
@@ -264,6 +270,31 @@ def _extra_arrays(extra, nd):
     return pin, det
 
 
+# what getPitchData() reports (current state), as names of the shape's own dimensions
+_PITCH = {
+    "Hexagon": ["op"], "HoledHexagon": ["op"], "Rectangle": ["lengthOuter", "widthOuter"],
+    "SolidRectangle": ["lengthOuter", "widthOuter"], "HoledRectangle": ["lengthOuter", "widthOuter"],
+    "Square": ["widthOuter", "widthOuter"], "HoledSquare": ["widthOuter", "widthOuter"],
+}
+
+
+def _derived_getters(comp, shape, t_in):
+    """The lengths a shape derives from its dimensions and reports at a requested state:
+    [name, call(Tc=None), honours Tc?, read cold value()].  Shapes that do not implement one raise the documented
+    NotImplementedError; UnshapedComponent documents that its bounding circle ignores Tc."""
+    res = []
+    for gname in ("getBoundingCircleOuterDiameter", "getCircleInnerDiameter"):
+        fn = getattr(comp, gname)
+        try:
+            fn(cold=True)
+        except NotImplementedError:
+            continue
+        res.append([gname, (lambda Tc=None, fn=fn: fn(Tc=Tc)), shape != "UnshapedComponent", (lambda fn=fn: fn(cold=True))])
+    if hasattr(comp, "getPerimeter"):
+        res.append(["getPerimeter", (lambda Tc=None: comp.getPerimeter(Tc=Tc)), True, (lambda: comp.getPerimeter(Tc=t_in))])
+    return res
+
+
 def _is_air_defect(exc):
     return isinstance(exc, ValueError) and "Cannot produce T in K" in str(exc)
 
@@ -350,6 +381,12 @@ def single_execute(case):
         return _nomodel(out, comp, case, temp, names, cold, shape, name)
 
     base = {"area": comp.getArea(cold=True)}
+    derived = _derived_getters(comp, shape, t_in)
+    dcold = {g[0]: g[3]() for g in derived}
+
+    def dabs():
+        # derived lengths may be differences of nearly equal dimensions (helixDiameter - od): absolute floor
+        return 1e-12 * max([abs(v) for v in cold.values()] + [abs(v) for v in dcold.values()] + [0.0])
     nd0 = dict(comp.getNumberDensities())
     pin0, det0 = _extra_arrays(case.get("extra"), nd0)
     if pin0 is not None:
@@ -378,6 +415,17 @@ def single_execute(case):
             got = comp.getDimension(d)
             out.check(got == v, "dims/non-expanding-dimension-changed",
                       lambda: "%s %s %s: %s is %r, input %r" % (shape, name, what, d, got, v))
+        for gname, call, _tc, _c in derived:
+            got = call()
+            out.check(_close(got, dcold[gname] * ft, REL if expands else TIGHT, dabs()), "dims/derived-length-not-cold-times-f",
+                      lambda: "%s %s %s: %s() at %.6f C is %r, cold %r * f %r = %r" % (
+                          shape, name, what, gname, t, got, dcold[gname], ft, dcold[gname] * ft))
+        if shape in _PITCH:
+            pd = comp.getPitchData()
+            pd = list(pd) if isinstance(pd, tuple) else [pd]
+            want = [cold[d] * ft for d in _PITCH[shape]]
+            out.check(len(pd) == len(want) and all(_close(a, b) for a, b in zip(pd, want)), "dims/derived-length-not-cold-times-f",
+                      lambda: "%s %s %s: getPitchData() at %.6f C is %r, cold*f = %r" % (shape, name, what, t, pd, want))
         area = comp.getArea()
         if expands:
             out.check(_close(area, base["area"] * ft * ft), "area/not-cold-area-times-f-squared",
@@ -455,6 +503,11 @@ def single_execute(case):
             t_new = temp(op["u"])
             preview = {d: comp.getDimension(d, Tc=t_new) for d in names}
             preview_area = comp.getArea(Tc=t_new)
+            preview_der = {g[0]: g[1](t_new) for g in derived if g[2]}
+            for gname, got in preview_der.items():
+                out.check(_close(got, dcold[gname] * f(t_new), REL if expands else TIGHT, dabs()), "dims/derived-length-at-Tc-not-cold-times-f",
+                          lambda: "%s %s: at %.6f C, %s(Tc=%r) = %r, cold %r * f(Tc) = %r" % (
+                              shape, name, t_cur, gname, t_new, got, dcold[gname], dcold[gname] * f(t_new)))
             try:
                 comp.setTemperature(t_new)
             except ValueError as exc:
@@ -474,6 +527,11 @@ def single_execute(case):
                               shape, name, d, t_new, preview[d], comp.getDimension(d)))
             out.check(_close(preview_area, s["area"], TIGHT), "area/preview-at-Tc-differs-from-state-at-Tc",
                       lambda: "%s %s: getArea(Tc=%r) gave %r before, %r after setTemperature" % (shape, name, t_new, preview_area, s["area"]))
+            for gname, call, _tc, _c in derived:
+                if gname in preview_der:
+                    out.check(_close(preview_der[gname], call(), TIGHT, dabs()), "dims/derived-length-preview-at-Tc-differs-from-state-at-Tc",
+                              lambda: "%s %s: %s(Tc=%r) gave %r at %.6f C, %r after setTemperature" % (
+                                  shape, name, gname, t_new, preview_der[gname], t_cur, call()))
             compare(prev, s, what)
             compare(s0, s, what + " vs construction")
             conserved(s, what)
@@ -510,6 +568,7 @@ def single_execute(case):
                       "density/changed-by-setDimension", "%s %s %s: pinNDens/detailedNDens" % (shape, name, d))
             # a dimension write changes the amount of material: new reference for the conservation checks
             base["area"] = comp.getArea(cold=True)
+            dcold.update({g[0]: g[3]() for g in derived})
             s = observe(t_cur, "after step %d (hot write of %s)" % (k, d))
             base["mass"] = lin_mass(s["area"], s["nd"])
             if "mass" in s:
@@ -738,11 +797,12 @@ def census_execute(case):
 # linked dimensions: 2-4 components in a block, built the way BlockBlueprint.construct does
 
 LINK_FLUIDS = ["Void", "Sodium", "Lead", "LeadBismuth", "SaturatedWater", "Potassium", "Cs", "Lithium", "Magnesium"]
-TEMPLATES = ["pin2", "pin3", "pin4", "annular", "duct2", "duct3", "rect2", "chain3"]
+TEMPLATES = ["pin2", "pin3", "pin4", "annular", "duct2", "duct3", "rect2", "chain3", "modadd", "modsub"]
 _LSHAPE_DIMS = {
     "Circle": ["od", "id"],
     "Hexagon": ["op", "ip"],
     "Rectangle": ["lengthOuter", "lengthInner", "widthOuter", "widthInner"],
+    "SolidRectangle": ["lengthOuter", "widthOuter"],
 }
 
 
@@ -801,10 +861,20 @@ def _linked_specs(case):
         return [("liner1", "Circle", "S", {"id": s * (0.3 + 0.5 * q[0]), "od": od1, "mult": m}),
                 ("liner2", "Circle", "S", {"id": "liner1.od", "od": od2, "mult": m}),
                 ("clad", "Circle", "S", {"id": "liner2.od", "od": od2 * (1 + wall(q[2])), "mult": "liner1.mult"})]
+    # documented area modifications ("<name>.add" / "<name>.sub"; the referenced component is defined first)
+    if t == "modadd":
+        return [("skids", "SolidRectangle", "S", {"lengthOuter": 0.1 * s * (1 + q[1]), "widthOuter": 0.04 * s * (1 + q[2]), "mult": 6}),
+                ("duct", "Hexagon", "S", {"op": s, "ip": s * (0.5 + 0.45 * q[0]), "mult": 1, "modArea": "skids.add"})]
+    if t == "modsub":
+        return [("rods", "Circle", "S", {"od": 0.1 * s * (1 + q[1]), "id": 0.0, "mult": 1 + m % 8}),
+                ("plate", "Rectangle", "S", {"lengthOuter": s, "lengthInner": 0.0, "widthOuter": s * (0.5 + q[2]), "widthInner": 0.0,
+                                             "mult": 1, "modArea": "rods.sub"})]
     raise KeyError(t)
 
 
 def _area_formula(shape, dims):
+    if shape == "SolidRectangle":
+        return dims["mult"] * dims["lengthOuter"] * dims["widthOuter"]
     if shape == "Circle":
         return dims["mult"] * math.pi * (dims["od"] ** 2 - dims["id"] ** 2) / 4.0
     if shape == "Hexagon":
@@ -856,14 +926,27 @@ def linked_execute(case):
             return index[tgt], td
         return None
 
-    def hot(i, d):
+    def hot(i, d, t=None):
         lk = link_of(i, d)
         if lk:
-            return hot(*lk)
+            return hot(lk[0], lk[1], t)
         v = model[i]["dims"][d]
         if d != "mult" and model[i]["kind"] == "solid":
-            return v * f(i)
+            return v * f(i, t)
         return v
+
+    def model_area(i, t=None, cold=False):
+        """Area of component i from the harness model (own area +/- the referenced component's), at its current
+        state, at a hypothetical common temperature t, or cold."""
+        def own(j):
+            names_ = _LSHAPE_DIMS[model[j]["shape"]] + ["mult"]
+            return _area_formula(model[j]["shape"], {d: (coldv(j, d) if cold else hot(j, d, t)) for d in names_})
+        a = own(i)
+        mod = model[i]["dims"].get("modArea")
+        if mod:
+            j, how = link_of(i, "modArea")
+            a += own(j) if how == "add" else -own(j)
+        return a
 
     def coldv(i, d):
         lk = link_of(i, d)
@@ -879,6 +962,8 @@ def linked_execute(case):
         elif op["op"] in ("lhot", "lcold"):
             # a write THROUGH a link: setDimension(linked dim, v, retainLink=True, cold=...) on a component that has one
             linkers = [j for j, mj in enumerate(model) if any(link_of(j, d) for d in _LSHAPE_DIMS[mj["shape"]])]
+            if not linkers:
+                continue
             j = linkers[op["c"] % len(linkers)]
             ldims = [d for d in _LSHAPE_DIMS[model[j]["shape"]] if link_of(j, d)]
             ops.append((op["op"], j, ldims[op["d"] % len(ldims)], op["u"]))
@@ -942,6 +1027,23 @@ def linked_execute(case):
             scale2 = max(abs(got[d]) for d in _LSHAPE_DIMS[mi["shape"]]) ** 2 * max(1.0, got["mult"])
             area = c.getArea()
             fa = _area_formula(mi["shape"], got)
+            if mi["dims"].get("modArea"):
+                j, how = link_of(i, "modArea")
+                oth = _area_formula(model[j]["shape"], {d: clist[j].getDimension(d) for d in _LSHAPE_DIMS[model[j]["shape"]] + ["mult"]})
+                fa += oth if how == "add" else -oth
+                # the same composition at a requested common temperature (inside both materials' windows) and cold
+                lo_ = max(mi["lo"], model[j]["lo"])
+                hi_ = min(mi["hi"], model[j]["hi"])
+                tp = lo_ + float(case.get("tp", 0.5)) * (hi_ - lo_)
+                if dll(i, tp) != dll(i, mi["Tin"]) and dll(j, tp) != dll(j, model[j]["Tin"]):
+                    ga, ma = c.getArea(Tc=tp), model_area(i, tp)
+                    out.check(_close(ga, ma), "area/modArea-at-Tc-not-composed-at-Tc",
+                              lambda: "%s: %s (modArea %s; %s at %.6f C, %s at %.6f C): getArea(Tc=%r) = %r, own(Tc) %s other(Tc) from cold*f(Tc) = %r" % (
+                                  what, mi["name"], mi["dims"]["modArea"], mi["name"], mi["T"], model[j]["name"], model[j]["T"], tp, ga,
+                                  "+" if how == "add" else "-", ma))
+                    out.label("modArea-preview:" + how)
+                gc, mc = c.getArea(cold=True), model_area(i, cold=True)
+                out.check(_close(gc, mc, TIGHT), "area/modArea-cold", lambda: "%s: %s cold area %r, model %r" % (what, mi["name"], gc, mc))
             if fa < 0:
                 overlap[0] = True
             out.check(_close(area, fa, TIGHT, 1e-13 * scale2), "area/not-from-current-dimensions",
@@ -1051,6 +1153,7 @@ def linked_strategy(tier):
         "tin": st.lists(_ufrac(), min_size=4, max_size=4),
         "t0": st.lists(_ufrac(), min_size=4, max_size=4),
         "height": st.floats(0.5, 200.0),
+        "tp": st.floats(0.0, 1.0),
         "ops": st.lists(st.one_of(op_t, op_w, op_l), min_size=1, max_size=8),
     })
 
@@ -1078,6 +1181,84 @@ def linked_enum(tier):
     return cases
 
 
+# ------------------------------------------------------------------------------------------------
+# one composition dict handed to several components (direct assignment of p.numberDensities, the route
+# updateNumberDensities' docstring names) and kept by the caller
+
+def shared_execute(case):
+    from armi.reactor import components
+
+    out = Out()
+    comps, models = [], []
+    for i, spec in enumerate(case["comps"]):
+        shape = SHAPE_NAMES[spec["shape"] % len(SHAPE_NAMES)]
+        name = SOLIDS[spec["mat"] % len(SOLIDS)]
+        ref = _make_material(name, None)
+        lo, hi, _st = _window(ref, "solid")
+        t_in, t0 = _temp(lo, hi, spec["tin"]), _temp(lo, hi, spec["t0"])
+        sub = {"scale": spec["scale"], "q": spec["q"], "mult": spec["mult"], "nHoles": 7}
+        args = dict(name="c%d" % i, material=_make_material(name, None), Tinput=t_in, Thot=t0)
+        args.update(_cold_dims(shape, sub))
+        comps.append(components.factory(shape.lower(), [], args))
+        models.append({"ref": ref, "lo": lo, "hi": hi, "Tin": t_in, "T": t0, "Tset": t0, "mat": name, "shape": shape})
+        out.label("shape:" + shape, "mat:" + name)
+    out.label("comps:%d" % len(comps))
+
+    def dll(i, t):
+        return float(models[i]["ref"].linearExpansionPercent(Tc=t))
+
+    def fac(i, t):
+        return 100.0 + dll(i, t)
+
+    # the caller's composition: what the first component was built with, handed to every component as the SAME dict
+    composition = dict(comps[0].getNumberDensities())
+    if not any(composition.values()):
+        composition = {"FE": 0.07, "CR": 0.011, "C": 8e-4}
+    kept = dict(composition)
+    for c in comps:
+        c.p.numberDensities = composition
+
+    def check_all(what):
+        out.check(composition == kept, "shared/caller-composition-dict-modified",
+                  lambda: "%s: the dict the caller assigned to %d components changed: %s" % (
+                      what, len(comps), {n: (kept[n], composition.get(n)) for n in sorted(kept) if composition.get(n) != kept[n]}))
+        for i, c in enumerate(comps):
+            mi = models[i]
+            r = (fac(i, mi["Tset"]) / fac(i, mi["T"])) ** 2
+            nd = c.getNumberDensities()
+            for n in sorted(kept):
+                if not out.check(_close(nd.get(n, 0.0), kept[n] * r), "shared/density-depends-on-another-components-history",
+                                 lambda: "%s: c%d (%s %s, composition assigned at %.6f C, now %.6f C) N(%s) = %r, assigned %r * (f(T_assigned)/f(T))^2 = %r" % (
+                                     what, i, mi["shape"], mi["mat"], mi["Tset"], mi["T"], n, nd.get(n), kept[n], kept[n] * r)):
+                    break
+
+    check_all("after assignment")
+    nontrivial = False
+    for k, op in enumerate(case["ops"]):
+        i = op["c"] % len(comps)
+        mi = models[i]
+        t_new = _temp(mi["lo"], mi["hi"], op["u"])
+        if abs(t_new - mi["T"]) >= 50.0 and dll(i, t_new) != dll(i, mi["T"]):
+            nontrivial = True
+        comps[i].setTemperature(t_new)
+        what = "step %d: c%d %.6f -> %.6f C" % (k, i, mi["T"], t_new)
+        mi["T"] = t_new
+        check_all(what)
+    out.nontrivial = nontrivial and len(comps) > 1
+    return out
+
+
+def shared_strategy(tier):
+    comp = st.fixed_dictionaries({
+        "shape": st.integers(0, len(SHAPE_NAMES) - 1), "mat": st.integers(0, len(SOLIDS) - 1), "scale": st.floats(0.05, 20.0),
+        "q": st.lists(st.floats(0.0, 1.0), min_size=4, max_size=4), "mult": st.integers(1, 271), "tin": _ufrac(), "t0": _ufrac(),
+    })
+    return st.fixed_dictionaries({
+        "comps": st.lists(comp, min_size=2, max_size=3),
+        "ops": st.lists(st.fixed_dictionaries({"c": st.integers(0, 2), "u": _ufrac()}), min_size=1, max_size=6),
+    })
+
+
 PARTS = [
     Part("census", census_execute, enumerate=census_enum, exhaustive=True, procs={"quick": 1, "thorough": 1},
          rule="every material class of armi.materials is classified (fluid / Custom / solid with or without an expansion "
@@ -1101,9 +1282,17 @@ PARTS = [
               "operations, modifications, parent) with window boundaries over-weighted; same oracle as the grid; shrinkable"),
     Part("linked_grid", linked_execute, enumerate=linked_enum, exhaustive=False, procs={"quick": 1, "thorough": 8},
          rule="every link template (fuel/bond, fuel/gap/clad, fuel/gap/liner/clad with a solid-solid link, annular fuel, "
-              "duct/intercoolant, duct/gap/duct, plate/channel, liner chain) x every link fluid, fixed history heating and "
+              "duct/intercoolant, duct/gap/duct, plate/channel, liner chain, duct with 'modArea: skids.add', plate with "
+              "'modArea: rods.sub' whose area and getArea(Tc=T) must be own +/- other, both at T) x every link fluid, fixed history heating and "
               "cooling every component",
-         bound=lambda t: "8 templates x 9 fluids x %d material draws" % {"quick": 1, "thorough": 12}[t]),
+         bound=lambda t: "10 templates x 9 fluids x %d material draws" % {"quick": 1, "thorough": 12}[t]),
+    Part("shared_composition", shared_execute, strategy=shared_strategy, budget={"quick": 500, "thorough": 20000},
+         procs={"quick": 1, "thorough": 8},
+         rule="Hypothesis: 2-3 solid components of any shape/material are given the SAME composition dict by direct assignment "
+              "of p.numberDensities (the caller keeps the dict), then a history of up to 6 setTemperature calls on any of them; after "
+              "every step each component's densities equal the assigned ones times (f(T_assigned)/f(T))^2 of its own material "
+              "and temperature only, and the caller's dict is unchanged. Non-trivial: >= 2 components and a >= 50 K step with "
+              "different dLL"),
     Part("linked", linked_execute, strategy=linked_strategy, budget={"quick": 1500, "thorough": 60000},
          procs={"quick": 3, "thorough": 16},
          rule="Hypothesis: 2-4 components built like BlockBlueprint.construct (link strings, resolveLinkedDims, HexBlock), each "
